@@ -24,6 +24,12 @@ Spatial(o, M) ==
   ELSE IF o \in VirtA(M) THEN o - M.nob
   ELSE o - M.nob - M.nva          \* occ spatial 1..noa, virt spatial noa+1..
 
+(* the spin orbital with the spatial part of o and the given spin *)
+WithSpin(o, spin, M) ==
+  LET k == Spatial(o, M) IN
+  IF IsOcc(o, M) THEN (IF spin = "a" THEN k ELSE M.noa + k)
+  ELSE (IF spin = "a" THEN NOcc(M) + (k - M.noa) ELSE NOcc(M) + M.nva + (k - M.noa))
+
 IdxRange(ix, M) ==
   LET sp == IF ix.s = "o" THEN OccA(M) \cup OccB(M)
             ELSE IF ix.s = "v" THEN VirtA(M) \cup VirtB(M)
